@@ -95,27 +95,19 @@ type Outcome struct {
 // Outcomes enumerates every admissible outcome of evaluating n on doc (all
 // choice vectors, odometer DFS). steps accumulates evaluation steps.
 func Outcomes(n *Node, doc interface{}, steps *int64) []Outcome {
-	var outs []Outcome
-	seen := map[string]bool{}
-	var choices []int
+	ev := &Eval{}
+	v, err := ev.Eval(n, doc)
+	if steps != nil {
+		*steps += ev.Steps
+	}
+	if ev.pos == 0 {
+		return []Outcome{{v, err}} // deterministic: no unordered iteration was met
+	}
+	outs := []Outcome{{v, err}}
+	seen := map[string]bool{outcomeKey(v, err): true}
 	for {
-		ev := &Eval{choices: choices}
-		v, err := ev.Eval(n, doc)
-		if steps != nil {
-			*steps += ev.Steps
-		}
-		key := "E"
-		if err == nil {
-			key = "V" + Canon(v)
-		} else if err == ErrGap {
-			key = "G"
-		}
-		if !seen[key] {
-			seen[key] = true
-			outs = append(outs, Outcome{v, err})
-		}
 		// next choice vector
-		choices = ev.choices[:ev.pos]
+		choices := ev.choices[:ev.pos]
 		arity := ev.arity[:ev.pos]
 		i := len(choices) - 1
 		for ; i >= 0; i-- {
@@ -128,7 +120,26 @@ func Outcomes(n *Node, doc interface{}, steps *int64) []Outcome {
 		if i < 0 {
 			return outs
 		}
+		ev = &Eval{choices: choices}
+		v, err = ev.Eval(n, doc)
+		if steps != nil {
+			*steps += ev.Steps
+		}
+		if key := outcomeKey(v, err); !seen[key] {
+			seen[key] = true
+			outs = append(outs, Outcome{v, err})
+		}
 	}
+}
+
+func outcomeKey(v interface{}, err error) string {
+	switch err {
+	case nil:
+		return "V" + Canon(v)
+	case ErrGap:
+		return "G"
+	}
+	return "E"
 }
 
 // Truthy is the JMESPath truth definition.
